@@ -166,7 +166,31 @@ var vRandTolerant bool
 
 func vRandUnscripted(on bool) { vRandTolerant = on }
 
+// vPar natively: the two bodies really run concurrently (under `go test -race` for C16 counter-examples).
+// Bodies must not draw scripted values; math/rand draws inside them get fixed defaults.
+var vInPar bool
+
+func vPar(shared interface{}, a, b func()) {
+	vInPar = true
+	start := make(chan struct{})
+	done := make(chan struct{}, 2)
+	run := func(f func()) {
+		<-start
+		defer func() { recover(); done <- struct{}{} }()
+		f()
+	}
+	go run(a)
+	go run(b)
+	close(start)
+	<-done
+	<-done
+	vInPar = false
+}
+
 func vRandHook(kind string) (float64, int64) {
+	if vInPar {
+		return 0.25, 0
+	}
 	if vRandTolerant {
 		p := vPos
 		for p < len(vCur.Script) && vCur.Script[p].Kind == "oracle" {
@@ -249,3 +273,7 @@ func vUF2(name string, x, y float64) float64 {
 func vRealModel() bool { return vCur != nil && vCur.RealModel }
 
 func vConcreteBool(b bool) bool { return b }
+
+// self-composition natively: the second run re-reads the same part of the script
+func vRandMark() int    { return vPos }
+func vRandRewind(k int) { vPos = k }
